@@ -26,20 +26,29 @@ LEVEL_TEXT = ("Lean 4 theorems over every reachable state of a small-step model 
               "KeyError/RuntimeError exits of run_queued_commands; every protocol variant), "
               "paused_solver_makes_no_progress_until_cont, wait_returns_only_when_honoured; for the repaired protocol "
               "wait_wakeup_not_lost, dispatch_wakeup_not_lost, plock_mutual_exclusion, lock_ownership (dispatch lock, "
-              "res_lock, qlock, plock: owner <-> program counter), command_lock_ownership and no_deadlock: for ALL "
-              "operations including queued commands and get_result of arbitrary ids, any number of threads, the only "
-              "requirement being that no program ends inside a pause section, no reachable state is without an "
-              "enabled thread (no_deadlock_statement_holds, no_deadlock_pause_fragment are corollaries; "
-              "unbalanced_pause_blocks_solver shows the requirement is needed); the deadlocks of the "
-              "pinned protocol are exhibited as theorems (lost_wakeup_reachable, lock_order_deadlock_reachable, "
-              "get_result_while_paused_deadlock_reachable, early_wait_return_reachable) and replayed on the real "
-              "code. The model is tied to the code on every run by executing the real CommandManager under a "
-              "cooperative scheduler on thousands of forced schedules and comparing enabled sets, primitives and "
-              "results step by step; the property's own predicate (exactly-once, delivery, wait/cont discipline, "
-              "nobody blocked forever for well-formed programs) is evaluated on the real traces.")
-LEVEL_NOTE = ("Freedom from deadlock (some thread enabled in every reachable state) of the REPAIRED protocol is proved "
-              "for all operations; fair termination is not proved (it is sampled on the real code: every well-formed "
-              "program finishes under a fair continuation of each schedule). Trusted: Lean kernel; the hand-written model (checked by the "
+              "res_lock, qlock, plock: owner <-> program counter), command_lock_ownership; LIVENESS of the repaired "
+              "protocol for ALL operations (queued commands, get_result of arbitrary ids, any nesting of "
+              "pause_on_next/wait/cont), any number of threads, the only requirement (WF) being that no program ends "
+              "inside a pause section: no_deadlock (every reachable state has an enabled thread; "
+              "no_deadlock_statement_holds and no_deadlock_pause_fragment are corollaries, "
+              "unbalanced_pause_blocks_solver shows WF is needed), some_enabled_step_decreases_rank / "
+              "interface_step_decreases_rank (explicit lexicographic ranking function), can_always_finish (from every "
+              "reachable state some finite continuation finishes every thread with every queued command executed "
+              "exactly once: no partial deadlock), terminates_under_strong_fairness (EVERY strongly fair infinite "
+              "schedule reaches such a final state), strongly_fair_schedule_exists (non-vacuity), "
+              "weak_fairness_is_not_enough (a weakly fair schedule that starves a dispatcher at qlock for ever); the "
+              "deadlocks of the pinned protocol are exhibited as theorems (lost_wakeup_reachable, "
+              "lock_order_deadlock_reachable, get_result_while_paused_deadlock_reachable, early_wait_return_reachable) "
+              "and replayed on the real code. The model is tied to the code on every run by executing the real "
+              "CommandManager under a cooperative scheduler on thousands of forced schedules and comparing enabled "
+              "sets, primitives and results step by step; the property's own predicate (exactly-once, delivery, "
+              "wait/cont discipline, nobody blocked forever for every program set that does not end inside a pause "
+              "section - the class the liveness theorems cover) is evaluated on the real traces.")
+LEVEL_NOTE = ("Complete for the model: safety for every protocol variant, deadlock freedom and termination under "
+              "strong fairness for the repaired protocol, all operations, any number of threads. Termination needs "
+              "STRONG fairness (weak fairness provably does not suffice: CPython locks are not fair, a dispatcher can "
+              "in principle starve at qlock while the solver spins); on the real code termination is sampled under "
+              "the harness's round-robin drain. Trusted: Lean kernel; the hand-written model (checked by the "
               "correspondence); the cooperative threading replacement in place of CPython's primitives and "
               "scheduler; primitive-level interleaving granularity; serial DummyComm.")
 TIMEOUT = {'quick': 1200, 'thorough': 3 * 3600}
